@@ -212,9 +212,11 @@ func RunC02(r *sim.Run) {
 			}
 		}
 		if t.Draw(3) == 0 {
-			for e := t.Range(1, 2); e > 0; e-- {
+			for e := t.Range(1, 3); e > 0; e-- {
 				hk := impExtraHdr[t.Draw(len(impExtraHdr))]
-				v := fmt.Sprintf("ev%d", e)
+				// values from a small pool: the same value may appear under two extra keys,
+				// and what is allowed under one key may be refused under the other
+				v := []string{"ev1", "ev2", "view"}[t.Draw(3)]
 				key := strings.ToLower(hk)
 				if u, err := url.PathUnescape(key); err == nil {
 					key = u
